@@ -180,10 +180,21 @@ func mkProg(kind int, rng *rand.Rand, shareBuf bool) *prog {
 }
 
 func runCompose(sw *shardWriter, j *jb, data []byte, kind int, seed int64, shareBuf bool, st *genStats) {
+	runComposeHist(sw, j, data, nil, nil, kind, seed, shareBuf, st)
+}
+
+// runComposeHist: as runCompose; with pre != nil the program's (long-lived) Buffer has first been through the same kind
+// of decoder on the document pre. segs, when given, is the run-length form of data (documents of the depth family).
+func runComposeHist(sw *shardWriter, j *jb, data []byte, segs []seg, pre []seg, kind int, seed int64, shareBuf bool, st *genStats) {
 	orig := append([]byte{}, data...)
 	rng := rand.New(rand.NewSource(seed))
 	pg := mkProg(kind, rng, shareBuf)
 	panics := 0
+	if pre != nil {
+		first := mkProg(kind, rand.New(rand.NewSource(seed+1)), shareBuf)
+		first.buf = pg.buf
+		guardPanic(&panics, func() { first.typed(expandSegs(pre), false) })
+	}
 	var v interface{}
 	var p int
 	var err error
@@ -198,8 +209,18 @@ func runCompose(sw *shardWriter, j *jb, data []byte, kind int, seed int64, share
 		}
 	}
 	j.reset()
-	j.raw(`{"op":"compose","in":`)
-	j.bytes(data)
+	j.raw(`{"op":"compose",`)
+	if segs != nil {
+		j.key("segs")
+		j.segs(segs)
+	} else {
+		j.key("in")
+		j.bytes(data)
+	}
+	if pre != nil {
+		j.raw(`,"pre":`)
+		j.segs(pre)
+	}
 	j.raw(`,"kind":`)
 	j.int(kind)
 	j.raw(`,"seed":`)
@@ -220,7 +241,7 @@ func runCompose(sw *shardWriter, j *jb, data []byte, kind int, seed int64, share
 	j.raw(`,"full":`)
 	j.b01(full)
 	j.raw(`,"tree":`)
-	if full && treeDepth(v) <= maxLoggedDepth {
+	if full && segs == nil && treeDepth(v) <= maxLoggedDepth {
 		j.tree(v)
 	} else {
 		j.raw(`["partial"]`)
@@ -251,6 +272,30 @@ func genCompose(c *genCtx) error {
 	if c.want("shapes") {
 		for _, d := range treeShapes(c) {
 			all(d)
+		}
+	}
+	// depth: decoders that recurse through the handlers on documents at and just below the nesting limit, with a
+	// Buffer of their own, with none, and with a long-lived Buffer that the same decoder has already taken through a
+	// document beyond the limit / an unclosed one / one at the limit
+	if c.want("depth") {
+		setCurrent("compose depth")
+		nest := func(open, bottom, close string, n int) []seg {
+			return []seg{{[]byte(open), n}, {[]byte(bottom), 1}, {[]byte(close), n}}
+		}
+		pres := [][]seg{nil, nest("[", "1", "]", 10001), nest(`{"a":`, "1", "}", 10001), nest(`[{"a":`, "1", "}]", 5025),
+			nest("[", "", "", 10005), nest("[", "1", "]", 10000)}
+		docs := [][]seg{nest("[", "1", "]", 10000), nest(`{"a":`, `"s"`, "}", 10000), nest(`[{"a":`, "null", "}]", 5000), nest("[", "[]", "]", 9999)}
+		for _, pre := range pres {
+			for _, d := range docs {
+				for _, k := range []int{0, 5, 7, 3, 1} {
+					for _, share := range []bool{true, false} {
+						if pre != nil && !share {
+							continue
+						}
+						runComposeHist(c.sw, &j, expandSegs(d), d, pre, k, int64(c.rng.Intn(1<<30)), share, c.st)
+					}
+				}
+			}
 		}
 	}
 	if c.want("sweep") && c.statesPath != "" {
@@ -313,7 +358,18 @@ func init() {
 	families["compose"] = genCompose
 	replayers["compose"] = func(ev map[string]interface{}) ([]byte, error) {
 		var j jb
-		runCompose(nil, &j, anyBytes(ev["in"]), int(ev["kind"].(float64)), int64(ev["seed"].(float64)), ev["sharebuf"].(float64) == 1, newStats())
+		toSegs := func(x interface{}) []seg {
+			var out []seg
+			if s, ok := x.([]interface{}); ok {
+				for _, y := range s {
+					p := y.([]interface{})
+					out = append(out, seg{anyBytes(p[0]), int(p[1].(float64))})
+				}
+			}
+			return out
+		}
+		runComposeHist(nil, &j, evInput(ev), toSegs(ev["segs"]), toSegs(ev["pre"]), int(ev["kind"].(float64)), int64(ev["seed"].(float64)),
+			ev["sharebuf"].(float64) == 1, newStats())
 		return append([]byte{}, j.b...), nil
 	}
 }
